@@ -86,6 +86,16 @@ add("C09", "model_checking",
     "exhaustive, values are not). Programs deeper than 2 are not covered.",
     "exhaustive enumeration of control-flow paths of every rule and of all programs of a bounded grammar, scalar vs. rewritten form", "2/C09")
 
+add("C03", "model_checking",
+    "Per date and scalar rule, the set of argument tuples the rule actually receives in the population universe (library households x "
+    "single-attribute deviations) is harvested from all-nodes simulations; then every ordered pair (first row, other row) of those tuples "
+    "is pushed through the production wrapper (_vectorize_func + partialled parameters) as a two-row array: the second element must equal "
+    "the scalar rule's value exactly, the dtype must be the same for every first row and match the declared result type. At graph level "
+    "every rule column of every simulation is re-derived row by row from its parent columns.",
+    "Argument tuples outside the harvested universe are not covered (pairs are exhaustive up to the stated cap per rule, values are the "
+    "universe's). Rules only active before 2015 are not exercised.",
+    "bounded exhaustive enumeration of (first row, row) pairs per rule against the scalar rule as reference", "2/C03")
+
 NOT_APPLICABLE = []
 
 
